@@ -43,3 +43,15 @@ Theorems.vos Theorems.vok Theorems.required_vos: Theorems.v Bytes.vos BytesFacts
 Refuted.vo Refuted.glob Refuted.v.beautified Refuted.required_vo: Refuted.v Bytes.vo Segment.vo Stack.vo Collection.vo
 Refuted.vio: Refuted.v Bytes.vio Segment.vio Stack.vio Collection.vio
 Refuted.vos Refuted.vok Refuted.required_vos: Refuted.v Bytes.vos Segment.vos Stack.vos Collection.vos
+Tree.vo Tree.glob Tree.v.beautified Tree.required_vo: Tree.v Stack.vo Collection.vo Store.vo
+Tree.vio: Tree.v Stack.vio Collection.vio Store.vio
+Tree.vos Tree.vok Tree.required_vos: Tree.v Stack.vos Collection.vos Store.vos
+TreeColl.vo TreeColl.glob TreeColl.v.beautified TreeColl.required_vo: TreeColl.v Tree.vo
+TreeColl.vio: TreeColl.v Tree.vio
+TreeColl.vos TreeColl.vok TreeColl.required_vos: TreeColl.v Tree.vos
+TreeRun.vo TreeRun.glob TreeRun.v.beautified TreeRun.required_vo: TreeRun.v TreeColl.vo FlatRun.vo
+TreeRun.vio: TreeRun.v TreeColl.vio FlatRun.vio
+TreeRun.vos TreeRun.vok TreeRun.required_vos: TreeRun.v TreeColl.vos FlatRun.vos
+TreeFacts.vo TreeFacts.glob TreeFacts.v.beautified TreeFacts.required_vo: TreeFacts.v Bytes.vo BytesFacts.vo Segment.vo SegmentFacts.vo Stack.vo StackFacts.vo Collection.vo CollectionFacts.vo Store.vo StoreFacts.vo Tree.vo TreeColl.vo
+TreeFacts.vio: TreeFacts.v Bytes.vio BytesFacts.vio Segment.vio SegmentFacts.vio Stack.vio StackFacts.vio Collection.vio CollectionFacts.vio Store.vio StoreFacts.vio Tree.vio TreeColl.vio
+TreeFacts.vos TreeFacts.vok TreeFacts.required_vos: TreeFacts.v Bytes.vos BytesFacts.vos Segment.vos SegmentFacts.vos Stack.vos StackFacts.vos Collection.vos CollectionFacts.vos Store.vos StoreFacts.vos Tree.vos TreeColl.vos
